@@ -184,6 +184,100 @@ while true:
     y = y + 1 {1/2} y - 1
     x = x + y**2
 end""", ['x', 'y']),
+
+("or_overlap", """x = 0
+y = 0
+z = 1
+while true:
+    if x == 1 || y == 2:
+        z = z + 2 {1/4} z
+    else:
+        z = z - 1
+    end
+    x = 1 {1/2} 0
+    y = x {1/3} 2 {1/3} 0
+end""", ['z', 'x', 'y']),
+("not_and", """a = 0
+b = 1
+s = 0
+while true:
+    if !(a == 1 && b == 1):
+        s = s + 1
+    elif a == 1:
+        s = s - 1
+    else:
+        s = 2*s
+    end
+    a = Bernoulli(1/2)
+    b = Bernoulli(1/3)
+end""", ['s', 'a', 'b']),
+("cond_expr", """x = 0
+c = 0
+d = 0
+while true:
+    c = Bernoulli(1/2)
+    d = Bernoulli(1/2)
+    if c + d < 2:
+        x = x + 1
+    end
+    if c - d == 0:
+        x = 2*x
+    end
+end""", ['x']),
+("three_way_overlap", """r = 0
+w = 2
+l = 1
+while true:
+    r = Categorical(1/2, 1/4, 1/4)
+    if r == 0:
+        w = w + 1
+    elif r <= 1:
+        l = l + w
+    else:
+        l = l + 1
+    end
+end""", ['w', 'l']),
+("alias_reuse_rhs", """x = 0
+y = 1
+t = 0
+u = 0
+while true:
+    y = 1 - y {1/3} y
+    if y < x + 1:
+        t = 1
+    else:
+        t = 0
+    end
+    x = 1 - x {1/2} x
+    if y < x + 1:
+        u = 1
+    else:
+        u = 0
+    end
+end""", ['t', 'u', 'x']),
+("alias_reuse_lhs", """a = 0
+b = 1
+s = 0
+while true:
+    b = Bernoulli(1/2)
+    if a + b > 1:
+        s = s + 1
+    end
+    a = 1 - a {1/2} a
+    if a + b > 1:
+        s = s + 2
+    end
+    if a + b > 1:
+        s = s + 4
+    end
+end""", ['s', 'a']),
+("d18_uninit_under_guard", """x = 3
+c = 0
+while c == 1:
+    c = Categorical(1/4, 1/4, 1/2)
+    r = Bernoulli(1/4)
+    x = 2*x
+end""", ['r', 'x']),
 ]
 
 
@@ -263,7 +357,11 @@ def gen_program(rnd: random.Random):
                 c = rnd.choice(fins)
                 op, val = rnd.choice([('==', '0'), ('==', '1'), ('<', '1'), ('>=', '1')])
                 inner = block(depth + 1, [i])
-                s = [f'if {c} {op} {val}:'] + ['    ' + l for l in inner]
+                cond = f'{c} {op} {val}'
+                if len(fins) > 1 and rnd.random() < 0.35:
+                    c2 = [f for f in fins if f != c][0]
+                    cond = rnd.choice([f'{cond} || {c2} == 1', f'{cond} && {c2} == 0', f'!({cond} && {c2} == 1)', f'{c} + {c2} < 2'])
+                s = [f'if {cond}:'] + ['    ' + l for l in inner]
                 r = rnd.random()
                 if r < 0.3:
                     s += [f'elif {c} == {rnd.choice(["1", "2"])}:'] + ['    ' + l for l in block(depth + 1, [i])]
@@ -283,6 +381,12 @@ def gen_program(rnd: random.Random):
     guard = 'true'
     if fins and rnd.random() < 0.3:
         guard = f'{fins[0]} == {rnd.choice(["0", "1"])}'
+    if guard != 'true':
+        # known finding D18 (uninitialised variable assigned only under a non-trivial guard): the family keeps clear of that class,
+        # it is represented by one curated program instead (d18_uninit_under_guard)
+        have = {l.split(' ')[0] for l in lines_init}
+        for v in accs + draws:
+            if v not in have: lines_init.append(f'{v} = 0')
     src = '\n'.join(lines_init + [f'while {guard}:'] + ['    ' + l for l in body] + ['end'])
     return src, accs + fins
 
